@@ -137,6 +137,31 @@ HARNESSES += [
     H('kraft_step_lemma', ['C18'], FIX, HC, timeout=300, expect=['assertion'], min_obligations=2, loop_contracts=False,
       note='arithmetic lemma for the repair step of fix_code_lens, depths up to 60'),
 ]
+# ---- T. constant tables of the library against the RFCs -----------------------------------------------------
+TB = 'igzip/huff_tables.c'
+TBS = ['igzip/hufftables_c.c']
+HARNESSES += [
+    H('tables_static', ['C18', 'C01'], TB, TBS, timeout=600, expect=['assertion'], min_obligations=5, loop_contracts=False,
+      note='hufftables_static = RFC 1951 3.2.6 fixed code (bit-reversed), packed entries well-formed, 3-bit header BFINAL=1 BTYPE=01'),
+    H('tables_default_wf', ['C18', 'C01'], TB, TBS, timeout=600, expect=['assertion'], min_obligations=6, loop_contracts=False,
+      note='hufftables_default: code lengths 1..15, packed entries well-formed (preconditions of get_len_code/get_dist_code), '
+           'lit+len+dist <= 56 bits, header starts BFINAL=1 BTYPE=10'),
+    H('tables_default_prefix_free', ['C18'], TB, TBS, timeout=900, expect=['assertion'], min_obligations=2, loop_contracts=False),
+    H('tables_default_kraft', ['C18'], TB, TBS, timeout=900, expect=['assertion'], min_obligations=2, loop_contracts=False, unwind=290,
+      bounds='none: loops over the 286 / 30 constant table entries only (no symbolic input): exhaustive evaluation'),
+    H('tables_default_canonical', ['C18'], TB, TBS, timeout=900, expect=['assertion'], min_obligations=2, loop_contracts=False, unwind=290,
+      bounds='none: loops over the constant tables only: exhaustive evaluation',
+      note='every code of hufftables_default is the RFC 1951 3.2.2 canonical code of its length (what a decoder rebuilds from the header)'),
+    H('tables_default_hdr_parses', ['C18'], TB, TBS, timeout=1500, expect=['assertion'], min_obligations=5, loop_contracts=False, unwind=321,
+      bounds='none: a reference RFC 1951 3.2.7 header parser (in the harness) runs over the constant header bytes: exhaustive evaluation',
+      note='the stored deflate_hdr of hufftables_default decodes to exactly the code lengths the packed tables use, and ends at '
+           'deflate_hdr_count bytes + deflate_hdr_extra_bits bits'),
+    H('tables_wrapper_hdrs', ['C19'], TB, TBS, timeout=300, expect=['assertion'], min_obligations=5, loop_contracts=False),
+    H('tables_rfc_lookup', ['C02', 'C06'], TB, TBS + ['igzip/igzip_inflate.c'], timeout=600, defines=['TB_INFLATE'], expect=['assertion'],
+      min_obligations=2, loop_contracts=False,
+      note='discharges the "rfc_lookup_table holds the RFC rows" requires of the decode-loop family for the initialiser'),
+]
+
 # ---- D1. igzip/igzip.c: window mask, table installation, dictionaries ------------------------------
 LZI = 'igzip/lz_igzip.c'
 IGZIP = ['igzip/igzip.c']
@@ -214,7 +239,54 @@ for _n in ('get_dist_code', 'compute_dist_code', 'get_len_code', 'get_dist_icf_c
     _V.append(_variant(_n, '_longer', ['LONGER_HUFFTABLE']))
 for _n in ('lz_set_dist_mask', 'set_dict', 'process_dict', 'reset_dict', 'get_dist_code', 'compute_dist_code'):
     _V.append(_variant(_n, '_hist8k', ['IGZIP_HIST_SIZE=8192']))
+for _n in ('tables_static', 'tables_default_wf', 'tables_default_prefix_free', 'tables_default_kraft', 'tables_default_canonical',
+           'tables_default_hdr_parses', 'tables_wrapper_hdrs'):
+    _V.append(_variant(_n, '_hist8k', ['IGZIP_HIST_SIZE=8192']))
+    _V.append(_variant(_n, '_longer', ['LONGER_HUFFTABLE'], timeout=15000))  # 8192-entry dist_table: 1100-1800 s measured
+# byte-level history postconditions of the dictionary functions (ghost-position copy of lz_memcpy enabled): only the 8 KiB build
+# closes (set_dict 1213 s, process_dict 3889 s; reset_dict did not finish within 6500 s and is not registered; the 32 KiB
+# default build does not close either).  IGZIP_HIST_SIZE below 8 KiB is not usable for this: struct isal_dict.hashtable then has
+# fewer heads than the level 0/1 tables and process_dict/reset_dict overrun it (outside the documented configurations).
+for _n, _t in (('set_dict', 12000), ('process_dict', 36000)):
+    _h = _variant(_n, '_data_hist8k', ['IGZIP_HIST_SIZE=8192'], timeout=_t)
+    _h.defines = [d for d in _h.defines if d != 'LZ_MEMCPY_NO_DATA']
+    _h.note = ('adds the byte-level postcondition: for every ghost position g < min(len, window): history[g] == dictionary tail[g] '
+               '(memcpy model copies the byte at the ghost position); build -DIGZIP_HIST_SIZE=8192')
+    _V.append(_h)
 HARNESSES += _V
+
+# ---- CBMC 6.11 union / constant-propagation defect (DESIGN.md): review of this family --------------------------
+# The defect needs a TYPED object whose type contains a union, a constant-index store through a union member and a
+# later pointer store with a symbolic index into the same storage.  Objects created by is_fresh / raw arrays viewed
+# through a cast are not affected.
+_UNION_REVIEW = {
+    'set_huff_codes_small': 'table backed by a raw uint32_t array viewed as struct huff_code (was a typed local); killing mutant re-run',
+    'set_dist_huff_codes_small': 'codes backed by a raw uint32_t array viewed as struct huff_code (was a typed local); killing mutant re-run',
+    'expand_hufftables_icf': 'hufftables backed by a raw uint32_t array viewed as struct hufftables_icf (was malloc(sizeof) = typed); the '
+                             "function's own typed local orig[21] only sees constant-index whole-struct stores and reads; killing mutant re-run",
+    'rl_encode_small': 'no union in any object (struct rl_code, uint16_t codes, uint64_t counts)',
+    'create_huffman_header': 'every object is is_fresh (untyped); struct rl_code / BitBuf2 have no union; lookup_table is only read',
+    'create_header': "is_fresh objects; the function's typed locals lookup_table / heap_space are written only by replaced stubs (havoc), "
+                     'never by a constant-index member store',
+    'write_deflate_icf': 'is_fresh token (untyped); struct deflate_icf is a bit-field struct without union',
+    'write_deflate_icf_packed': 'is_fresh token (untyped); one 32-bit store',
+    'encode_deflate_icf_base': 'is_fresh objects; the typed locals lsym / dsym (struct huff_code, union) receive whole-struct assignments '
+                               'only and are read by member -- no pointer store into them',
+    'encode_deflate_icf_base_2tok': 'as encode_deflate_icf_base',
+    'encode_deflate_icf_base_bytes': 'as encode_deflate_icf_base',
+    'create_hufftables_icf_frame': 'frame-only statement; typed locals with unions are written by replaced stubs (havoc) only',
+    'create_packed_len_table': 'is_fresh objects',
+    'create_packed_dist_table': 'is_fresh objects',
+    'are_hufftables_useable': 'is_fresh objects, read only',
+    'tables_static': 'const objects, no stores; struct isal_hufftables has no union',
+}
+for _h in HARNESSES:
+    _k = _h.name
+    for _suf in ('_longer', '_hist8k'):
+        if _k.endswith(_suf):
+            _k = _k[:-len(_suf)]
+    if _k in _UNION_REVIEW:
+        _h.note = (_h.note + '; ' if _h.note else '') + 'CBMC union-defect review: ' + _UNION_REVIEW[_k]
 
 PROP_TEXT = {
     'C17': {
@@ -253,6 +325,10 @@ PROP_TEXT = {
             'set_huff_codes returns a symbol >= 256 for the lit/len alphabet and set_dist_huff_codes a symbol >= 1 (EOB forced non-zero, heap has '
             'two entries) -- assumed',
             'isal_deflate_set_hufftables: "a block is open" is internal_state.state != ZSTATE_NEW_HDR',
+            'constant tables (tables_*): the initialisers of hufftables_static / hufftables_default are checked with a const qualifier added to '
+            'their definitions by a macro in the harness TU (dfcc starts from arbitrary contents of non-const statics); that the library never '
+            'writes them is the frame part of the enforced contracts; all three documented builds (default, -DIGZIP_HIST_SIZE=8192, '
+            'LONGER_HUFFTABLE) -- the latter two in the thorough tier',
             'create_huffman_header / create_header: write_bits is the recording model hh_write_bits (value fits its count, count <= 56, logical '
             'position advances as in bitbuf2.h, bytes not stored); code-length code lengths <= 7 and codes < 2^length, run-length symbols <= 18 '
             'with extra_bits inside 2/3/7 bits, at most 316 of them, HLIT/HDIST <= 29, HCLEN <= 15, 2048-byte header buffer',
@@ -266,6 +342,7 @@ PROP_TEXT = {
             'update of the whole object (> 21 GB); the end-to-end variant additionally hits a CBMC 6.11 defect (member writes lost after a '
             'whole-object zeroing followed by a write through a uint64_t* alias)',
             'set_huff_codes / set_dist_huff_codes prefix-freeness and rl_encode round trip beyond the stated small bounds (kind=bounded); '
+            'igzip/static_inflate.h (pregenerated static inflate lookup tables) against what setup_static_header would build: not attempted',
             'rl_encode: proved by loop contract (rl_encode_loop, any num_codes <= 316) as "the write_rl calls tile the input in order with '
             '(value of the run, its length)"; that the concatenation of the blocks therefore decodes to the input is the composition of that '
             'statement with write_rl / spec_rl_valid and is not mechanised as one formula (bounded cross-check: rl_encode_small decodes the '
